@@ -64,14 +64,35 @@ def check(prog, rep, tier):
                 probs.append('buffer update %s is not an append of the chunk' % src_of(st))
     if appends != 1:
         probs.append('%d append(s) of the chunk, expected 1' % appends)
-    loops = [n for n in ast.walk(dr.node) if isinstance(n, ast.While)
-             and 'parse_buffer' in src_of(n.test)]
+    def drives(w):
+        """(is a loop driven by parse_buffer's result, break statements that are the driven exit)"""
+        if 'parse_buffer' in src_of(w.test):
+            return True, []
+        if isinstance(w.test, ast.Name):
+            asg = [x for x in ast.walk(ast.Module(body=w.body, type_ignores=[])) if isinstance(x, ast.Assign)
+                   and any(isinstance(t, ast.Name) and t.id == w.test.id for t in x.targets)]
+            if asg and all(src_of(x.value) == 'self.parse_buffer()' for x in asg):
+                return True, []
+        if isinstance(w.test, ast.Constant) and w.test.value is True:
+            exits = [x for x in w.body if isinstance(x, ast.If) and src_of(x.test) == 'not self.parse_buffer()'
+                     and len(x.body) == 1 and isinstance(x.body[0], ast.Break) and not x.orelse]
+            if exits:
+                return True, [x.body[0] for x in exits]
+        return False, []
+    loops = []
+    allowed_breaks = []
+    for n in ast.walk(dr.node):
+        if isinstance(n, ast.While):
+            d, br = drives(n)
+            if d:
+                loops.append(n)
+                allowed_breaks += br
     if not loops:
         probs.append('no loop on parse_buffer()')
     else:
         lp = loops[0]
         for n in ast.walk(ast.Module(body=lp.body, type_ignores=[])):
-            if isinstance(n, (ast.Break, ast.Return)):
+            if isinstance(n, (ast.Break, ast.Return)) and n not in allowed_breaks:
                 probs.append('loop on parse_buffer() can be left before parse_buffer returns False')
     # the loop on parse_buffer() is reached unconditionally and is not bounded by anything but
     # parse_buffer's own result
